@@ -149,6 +149,16 @@ func (c *Ctx) eval(x Expr) CVal {
 			l, r := c.evalInt(x.L), c.evalInt(x.R)
 			return CVal{T: tCmp(x.Op, l, r)}
 		case "+", "-":
+			if x.Op == "+" {
+				if lv := c.eval(x.L); lv.T.Sort == sStr {
+					rv := c.eval(x.R)
+					if rv.T.Sort != sStr {
+						cfail("string + non-string in %s", exprString(x))
+					}
+					e.usedUF["strcat"] = true
+					return CVal{T: Term{app("strcat", lv.T.S, rv.T.S), sStr}, GT: types.Typ[types.String]}
+				}
+			}
 			l, r := c.evalInt(x.L), c.evalInt(x.R)
 			return CVal{T: Term{app(x.Op, l.S, r.S), sInt}}
 		case "*":
@@ -325,6 +335,8 @@ func (c *Ctx) evalCall(x *ECall) CVal {
 	case "allocated":
 		v := c.evalInt(x.Args[0])
 		return CVal{T: tAnd(Term{app("<=", "0", v.S), sBool}, Term{app("<", v.S, c.st.alloc.S), sBool})}
+	case "zeros": // the all-zero array of integers
+		return CVal{T: Term{"((as const (Array Int Int)) 0)", arrSort(sInt)}}
 	case "as": // as(x, T): view an interface / pointer value as *T
 		v := c.eval(x.Args[0])
 		id, ok := x.Args[1].(*EIdent)
@@ -353,6 +365,10 @@ func (c *Ctx) evalCall(x *ECall) CVal {
 	case "mulI":
 		a, b := c.evalInt(x.Args[0]), c.evalInt(x.Args[1])
 		return CVal{T: e.mulTerm(a, b)}
+	}
+	if strings.HasPrefix(x.Fn, "box_") && len(x.Args) == 1 {
+		v := c.eval(x.Args[0])
+		return CVal{T: e.boxTerm(x.Fn[4:], v.T)}
 	}
 	if uf, ok := e.p.cs.UFs[x.Fn]; ok {
 		if len(x.Args) != len(uf.Params) {
@@ -474,6 +490,9 @@ func exprString(x Expr) string {
 }
 
 func ufSort(t string) string {
+	if strings.HasPrefix(t, "(") {
+		return t
+	}
 	switch t {
 	case "Str", "string":
 		return sStr
